@@ -11,7 +11,8 @@ RULE = ('cases = source/target tables (0-12 rows; duplicate, missing and null ke
         'field list / format string / row number x mode x aggregator x source_delete x wildcard mapping x join_with_self; '
         'non-trivial = at least one key has two or more source rows or a target row has no match; distinct = case digest'
         '; round 7: key and field names that are not identifiers; every case also read after all resources were taken from the stream (join may not depend on the consumer reading in turn)'
-        '; round 8: a later step that adds to every list of a joined row in place (each row owns its containers), several target rows in a row with one key')
+        '; round 8: a later step that adds to every list of a joined row in place (each row owns its containers), several target rows in a row with one key'
+        '; round 9: a source primary key of which the join key is a part (or, as a string, a substring); sum over a text column')
 TRUSTED = ['Coq 8.16.1 kernel + vm_compute', 'harness/p11.py printers, field-order computation (fix/expand/order_fields mirror) and oracle',
            'KVFile as an ordered map', 'avg/median compared only where the quotient is an exact small dyadic rational',
            'Python str() of key values (int, str, None, bool) as modelled by str_of_value']
